@@ -421,7 +421,7 @@ class Sim:
     def mkey(tm, key: dict, reopened: bool = True) -> dict:
         """Tag merge findings on tables whose merges came from a shipped document and were then
         moved by a structural edit (their storage in formula-owner records is a known finding)."""
-        if reopened and tm is not None and tm.legacy_merges and tm.struct_edited:
+        if tm is not None and tm.legacy_merges and tm.struct_edited and (reopened or getattr(tm, "legacy_reloaded", False)):
             key = dict(key)
             key["legacy_merge_records_moved"] = True
         return key
@@ -1029,6 +1029,11 @@ def op_restart(sim: Sim, a) -> str:
         sim.probe("recovered_after_fault")
         sim.faults_pending_liveness = False
     ds = DocState(doc, slot.model.clone())
+    for _si, _ti, t_ in ds.model.tables():
+        if t_.legacy_merges and t_.struct_edited:
+            # this instance was READ from a file that carries both the moved merge map and the untouched owner
+            # records (known finding): ghost ranges may also surface later in memory, e.g. when the table grows
+            t_.legacy_reloaded = True
     sim.doc_created(ds, path)
     _place_doc(sim, ds, a, replace)
     return "ok"
